@@ -379,6 +379,19 @@ func genericRules(w *World, r *Report, prop string) {
 		}
 	}
 	r.OK(prop+"-G8", "census", 0, fmt.Sprintf("%d error-producing calls inspected", nG8))
+	// ---- G9 a possibly non-nil error is not overwritten unchecked
+	r.Rule(prop+"-G9", "a pending error is not overwritten", "in the same functions: when an error variable may hold a non-nil error that no branch has tested yet, it is not assigned the result of another call", 0)
+	nG9 := 0
+	for _, root := range fns {
+		fam := familyOf(root)
+		for _, fn := range fam.Funcs {
+			for _, v := range pendingErrorOverwrites(fam, fn) {
+				r.Fail(prop+"-G9", fmt.Sprintf("%s | %s overwritten while pending #%d", shortFn2(fn), v.name, v.n), v.at.Pos(), "on some path this error variable still holds an error that no branch has tested (set by an earlier call or inside a callback) when it is assigned the result of another call: the earlier failure is lost and the code continues as if that step had succeeded")
+			}
+			nG9++
+		}
+	}
+	r.OK(prop+"-G9", "census", 0, fmt.Sprintf("%d functions inspected", nG9))
 	// ---- G7 lock pairing
 	r.Rule(prop+"-G7", "locks are paired", "in the same functions: a mutex / key lock taken on every path to a return is released before it (directly or by a deferred unlock), and every unlock releases a lock that is held on every path reaching it", 0)
 	nLocks := 0
@@ -863,8 +876,15 @@ func storeReachesLoad(fam *Family, al *ssa.Alloc, st *ssa.Store) bool {
 	// a literal of the same family that reads the variable may run at any time (deferred, callback): the store is
 	// only dead if the literal is created after it; creation is a MakeClosure, handled by isLoad. A literal created
 	// BEFORE the store and invoked later (retry callbacks stored in variables) is rare; be conservative:
+	var resume ssa.Instruction
 	if st.Parent() != al.Parent() {
-		return true
+		// a store made inside a literal into a captured variable: it is seen by later reads inside the literal and,
+		// once the literal has returned, by the code after the call it was handed to
+		site := syncCallbackSite(st.Parent())
+		if site == nil || site.Parent() != al.Parent() {
+			return true
+		}
+		resume = site
 	}
 	blk := st.Block()
 	seen := map[*ssa.BasicBlock]bool{}
@@ -902,5 +922,172 @@ func storeReachesLoad(fam *Family, al *ssa.Alloc, st *ssa.Store) bool {
 		}
 		return false
 	}
-	return walk(blk, instrIndex(st)+1)
+	if walk(blk, instrIndex(st)+1) {
+		return true
+	}
+	if resume != nil {
+		// the literal may run several times (retry): its own reads at the top of the next attempt count as well
+		for _, in := range st.Parent().Blocks[0].Instrs {
+			if isLoad(in) {
+				return true
+			}
+			if isStore(in) {
+				break
+			}
+		}
+		seen = map[*ssa.BasicBlock]bool{}
+		return walk(resume.Block(), instrIndex(resume)+1)
+	}
+	return false
+}
+
+type pendingOverwrite struct {
+	at   *ssa.Store
+	name string
+	n    int
+}
+
+// pendingErrorOverwrites: forward dataflow per error-typed local variable that lives in memory (captured or
+// addressed): Nil / Checked (some branch looked at it) / Unchecked. Reports stores of a call result made in state
+// Unchecked.
+func pendingErrorOverwrites(fam *Family, fn *ssa.Function) []pendingOverwrite {
+	const (
+		stNil = iota
+		stChecked
+		stUnchecked
+	)
+	var out []pendingOverwrite
+	var vars []*ssa.Alloc
+	eachInstr(fn, func(in ssa.Instruction) {
+		if al, ok := in.(*ssa.Alloc); ok {
+			if p, isP := al.Type().Underlying().(*types.Pointer); isP && isErrorType(p.Elem()) {
+				vars = append(vars, al)
+			}
+		}
+	})
+	for _, al := range vars {
+		isA := func(v ssa.Value) bool { return fam.canon(v) == ssa.Value(al) }
+		// literals that assign the variable
+		assigns := map[*ssa.Function]bool{}
+		for _, st := range fam.stores[al] {
+			if st.Parent() != fn {
+				assigns[st.Parent()] = true
+			}
+		}
+		in := map[*ssa.BasicBlock]int{}
+		outS := map[*ssa.BasicBlock]int{}
+		edge := map[[2]*ssa.BasicBlock]int{} // state forced on an edge by a nil test (-1: none)
+		for _, b := range fn.Blocks {
+			v, nn, isNil, ok := errNilTest(b)
+			if !ok {
+				continue
+			}
+			if ld, isLd := v.(*ssa.UnOp); isLd && ld.Op == token.MUL && isA(ld.X) {
+				edge[[2]*ssa.BasicBlock{b, nn}] = stChecked + 10
+				edge[[2]*ssa.BasicBlock{b, isNil}] = stNil + 10
+			}
+		}
+		join := func(a, b int) int {
+			if a == stUnchecked || b == stUnchecked {
+				return stUnchecked
+			}
+			if a == stChecked || b == stChecked {
+				return stChecked
+			}
+			return stNil
+		}
+		reported := map[*ssa.Store]bool{}
+		transfer := func(b *ssa.BasicBlock, s int, report bool) int {
+			var closureCall ssa.Value
+			for _, ins := range b.Instrs {
+				switch x := ins.(type) {
+				case *ssa.Alloc:
+					if x == al {
+						s = stNil // the declaration is executed again: a fresh variable
+					}
+				case *ssa.Store:
+					if !isA(x.Addr) {
+						continue
+					}
+					if isNilConst(x.Val) {
+						s = stNil
+						continue
+					}
+					fromCall := false
+					var src ssa.Value
+					switch y := x.Val.(type) {
+					case *ssa.Call:
+						fromCall, src = true, y
+					case *ssa.Extract:
+						_, fromCall = y.Tuple.(*ssa.Call)
+						src = y.Tuple
+					}
+					// `err = retry.Do(ctx, func() error { …; err = f(); return err })`: the callback's own assignment is
+					// what the call returns
+					if fromCall && src != nil && src == closureCall {
+						s = stUnchecked
+						continue
+					}
+					if fromCall && s == stUnchecked && report && !reported[x] {
+						reported[x] = true
+						out = append(out, pendingOverwrite{at: x, name: al.Comment, n: len(out) + 1})
+					}
+					if fromCall {
+						s = stUnchecked
+					} else {
+						// copying another error value (err = retryErr): pending again unless that value was tested; stay conservative
+						if s != stUnchecked {
+							s = stChecked
+						}
+					}
+				case ssa.CallInstruction:
+					for _, a := range x.Common().Args {
+						if mc, isMC := a.(*ssa.MakeClosure); isMC {
+							if lit, isF := mc.Fn.(*ssa.Function); isF && assigns[lit] {
+								s = stUnchecked
+								if v, isV := x.(ssa.Value); isV {
+									closureCall = v
+								}
+							}
+						}
+					}
+				}
+			}
+			return s
+		}
+		for iter := 0; iter < 50; iter++ {
+			changed := false
+			for _, b := range fn.Blocks {
+				s := stNil
+				first := true
+				for _, p := range b.Preds {
+					ps, seen := outS[p]
+					if !seen {
+						continue
+					}
+					if e, forced := edge[[2]*ssa.BasicBlock{p, b}]; forced {
+						ps = e - 10
+					}
+					if first {
+						s, first = ps, false
+					} else {
+						s = join(s, ps)
+					}
+				}
+				in[b] = s
+				o := transfer(b, s, false)
+				if old, ok := outS[b]; !ok || old != o {
+					outS[b] = o
+					changed = true
+				}
+			}
+			if !changed {
+				break
+			}
+		}
+		for _, b := range fn.Blocks {
+			transfer(b, in[b], true)
+		}
+	}
+	return out
 }
